@@ -48,6 +48,29 @@ def directed(ctx):
     return [b for m, b in res]
 
 
+SLOW_MUTANTS = ["sendsplit", "recreate"]
+
+
+def slow(ctx):
+    """behaviours with a submission whose critical section is delayed past other stimuli (RelaySlow.tla): the design holds for every
+    position of the critical section; shortest violating behaviours of the two model mutants plus simulated ones, for the real relay"""
+    import re as _re
+    r = ctx.tlc("MC_RelaySlow", cfg="MC_RelaySlowSafe.cfg" if ctx.tier == "quick" else "MC_RelaySlowSafe2.cfg", timeout=1800)
+    ctx.notes.append("MC_RelaySlow: %d distinct states, %d generated, depth %d, %.0fs" % (r.distinct, r.generated, r.depth, r.wall))
+    behs = []
+    for m in SLOW_MUTANTS:
+        r = ctx.tlc("MC_RelaySlow", cfg="MC_RelaySlow.cfg", workers=1, timeout=600, env={"MUT": m}, expect_ok=False, count=False)
+        hs = _re.findall(r'<<"HIST", "(.*)">>', r.out)
+        if not hs:
+            raise vlib.Infra("model mutant %s: TLC found no counterexample (directed scenario missing)\n%s" % (m, r.out[-1500:]))
+        behs += [json.loads(h.encode().decode("unicode_escape")) for h in hs]
+        ctx.cov.setdefault("directed_scenarios", {})[m] = len(json.loads(hs[0].encode().decode("unicode_escape")))
+    b, r = ctx.tlc_behaviours("MC_RelaySlowGen", "MC_RelaySlowGen.cfg", num=2 if ctx.tier == "quick" else 10, depth=300, timeout=900, workers=6,
+                              env={"MAXSTIM": 6}, marker="HIST")
+    ctx.cov["slow_behaviours"] = len(behs) + len(b)
+    return behs + b
+
+
 def split_traces(rows):
     out, cur = [], None
     for r in rows:
@@ -82,6 +105,8 @@ def run(ctx):
             "C25": [("MC_RelayGenS", 2 * per, 10), ("MC_RelayGenL", 2 * per, 10), ("MC_RelayGen", per, 14)]}.get(
         prop, [("MC_RelayGenS", 3 * per, 12), ("MC_RelayGenS", per, 7), ("MC_RelayGen", per, 14)])
     behs = directed(ctx)
+    if prop in ("C20", "C22", "C25"):
+        behs += slow(ctx)
     ndirected = len(behs)
     for cfg, num, maxstim in plan:
         b, r = ctx.tlc_behaviours("MC_RelayGen", cfg + ".cfg", num=num, depth=300, timeout=1500, workers=8,
@@ -109,6 +134,13 @@ def run(ctx):
         raise vlib.Infra("driver produced %d traces for %d behaviours" % (len(traces), len(behs)))
     ctx.traces += len(traces)
     ctx.evaluations += sum(1 for r in rows if r["e"] == "q")
+    nbig = sum(1 for r in rows if r.get("big"))
+    if nbig:
+        # stimuli that took effect while a big submission was still being verified (the window the slow behaviours aim at)
+        ctx.cov["slow_submissions"] = nbig
+        ctx.cov["stimuli_inside_verification_window"] = sum(1 for r in rows if r.get("during"))
+        if nbig >= 5 and not ctx.cov["stimuli_inside_verification_window"]:
+            raise vlib.Infra("no stimulus took effect while a big submission was being verified (machine too loaded?)")
     for i, evs in enumerate(traces):
         if NONTRIVIAL[prop](evs):
             ctx.nontrivial.add(json.dumps(behs[i], sort_keys=True))
@@ -149,12 +181,13 @@ def run(ctx):
 def strict(ctx, tpath):
     if not os.path.exists(os.path.join(ctx.specdir, "MC_RelayTrace.tla")):
         return
+    # (behaviours with a delayed submission are validated by the observer only, too: the strict spec has no split submission)
     # behaviours in which the driver held a stream back (scheduler gate) split one loop iteration of the real relay
     # across checkpoints; the strict spec treats an iteration as atomic, so those are validated by the observer only
     rows, keep, cur = vlib.read_ndjson(tpath), [], []
     for r in rows + [{"e": "reset"}]:
         if r["e"] == "reset":
-            if cur and not any(x["e"] in ("hold", "release") for x in cur):
+            if cur and not any(x["e"] in ("hold", "release") or x.get("big") for x in cur):
                 keep += cur
             cur = []
         cur.append(r)
